@@ -156,6 +156,17 @@ func (e *Engine) inModule(fn *ssa.Function) bool {
 	if fn == nil || fn.Blocks == nil {
 		return false
 	}
+	if fn.Pkg == nil && fn.Parent() == nil && strings.HasPrefix(fn.Synthetic, "wrapper for ") && fn.Signature.Recv() != nil {
+		// a promotion wrapper of a module type (sqlDB embedding *sql.DB): its body loads the embedded field and calls the real
+		// method, which is what the rules want to see
+		rt := fn.Signature.Recv().Type()
+		if p, ok := rt.(*types.Pointer); ok {
+			rt = p.Elem()
+		}
+		if n, ok := rt.(*types.Named); ok && n.Obj().Pkg() != nil && strings.HasPrefix(n.Obj().Pkg().Path(), e.modPrefix) {
+			return true
+		}
+	}
 	return strings.HasPrefix(pkgPathOf(fn), e.modPrefix)
 }
 
@@ -802,6 +813,7 @@ func (e *Engine) mkDeferred(s *state, fr *frame, c *ssa.CallCommon, pos token.Po
 				}
 			}
 		}
+		flowFrom := c.Value.Type()
 		if d.sfn == nil {
 			// (a) interface narrowing does not change the method called: name it after the interface type the receiver value
 			// was created with (e.g. the declared result type of the call that produced it)
@@ -811,6 +823,8 @@ func (e *Engine) mkDeferred(s *state, fr *frame, c *ssa.CallCommon, pos token.Po
 						if obj, _, _ := types.LookupFieldOrMethod(rt, false, c.Method.Pkg(), c.Method.Name()); obj != nil {
 							if mf, ok := obj.(*types.Func); ok {
 								d.callee = ifaceMethodName(rt, mf)
+								declared = d.callee
+								flowFrom = rt
 							}
 						}
 					}
@@ -818,7 +832,7 @@ func (e *Engine) mkDeferred(s *state, fr *frame, c *ssa.CallCommon, pos token.Po
 			}
 			// (c) a module interface that only narrows another interface, or only ever holds one concrete type (devirt.go)
 			if d.callee == declared && !knownIfaceMethods[declared] && e.ifaceFlow != nil {
-				j := c.Value.Type()
+				j := flowFrom
 				for hop := 0; hop < 4; hop++ {
 					from, conc := e.ifaceFlow(j)
 					if from != nil {
